@@ -605,7 +605,7 @@ Example history_quad (v1 v2 v3 v : Quad) :
      OSszEnc 0; OSszList 3 (bval v ++ bval v1)].
 Proof.
   apply quad_every_configuration_refines; [constructor| |].
-  - split; apply N.leb_le; reflexivity.
+  - apply N.leb_le; reflexivity.
   - repeat constructor. cbn [op_wf]. rewrite valid_bytes_app.
     pose proof (bval_ok v) as Hv. pose proof (bval_ok v1) as Hv1. apply andb_true_iff in Hv, Hv1.
     destruct Hv as [_ ->], Hv1 as [_ ->]. reflexivity.
